@@ -3,9 +3,7 @@
 import importlib, json, os, sys
 sys.path.insert(0, os.path.dirname(os.path.abspath(__file__)))
 PROPS = [f"C{i:02d}" for i in range(1, 21)]
-NOT_APPLICABLE = {
-    "C03": "end-to-end numerical behaviour of six composed blocks (filtering, eye clustering, threshold search) over all bit patterns; no structural clause is both non-trivial and not already owned by C05/C06/C09/C11/C12/C17 - declined rather than relabelled as static (DESIGN.md section 2, C03)",
-}
+NOT_APPLICABLE = {}
 checks, na = [], []
 for p in PROPS:
     path = os.path.join(os.path.dirname(os.path.abspath(__file__)), "ocv", "props", p.lower() + ".py")
